@@ -9,6 +9,10 @@ import PqlModel.Props.C07OperatorIRExtend
 import PqlModel.Props.C07OperatorIRProject
 import PqlModel.Props.C07OperatorIRLet
 import PqlModel.Props.C07OperatorIRTabular
+import PqlModel.Props.C07OperatorIRSummarize
+import PqlModel.Props.C07OperatorIRRender
+import PqlModel.Props.C07OperatorIRJoin
+import PqlModel.Props.C07OperatorIRParse
 #print axioms Pql.C08.C08_split_partition
 #print axioms Pql.C08.C08_splitSemi_partition
 #print axioms Pql.C08.C08_endSplit_iff
